@@ -41,14 +41,18 @@ Proof.
       intros p [<-|Hp]; [exact H1|apply H3; exact Hp].
 Qed.
 
+Lemma ahead_crlf eol : forallb is_crlf eol = true -> ahead eol.
+Proof.
+  destruct eol as [|c e]; [intros _; exact I|]. cbn [forallb]. intros H.
+  apply Bool.andb_true_iff in H. destruct H as [Hc _]. unfold is_crlf in Hc. unfold ahead. lia.
+Qed.
+
 Lemma ahead_params ms tr tail eol : forallb is_crlf eol = true ->
   ahead (render_middles ms ++ render_trailing tr tail ++ eol).
 Proof.
   intros He. destruct ms as [|[k m] ms]; [|cbn; reflexivity].
   cbn [render_middles flat_map app]. destruct tr as [[n t]|]; cbn [render_trailing]; [reflexivity|].
-  destruct tail; [|reflexivity]. cbn [spaces repeat app].
-  destruct eol as [|c e]; [exact I|]. cbn [forallb] in He. apply Bool.andb_true_iff in He. destruct He as [Hc _].
-  unfold is_crlf in Hc. cbn. lia.
+  destruct tail; [|reflexivity]. cbn [spaces repeat app]. apply ahead_crlf. exact He.
 Qed.
 
 Lemma Vmiddles ms : forall rest, ahead rest ->
@@ -129,9 +133,7 @@ Proof.
   { destruct (a_trailing a) as [[n t]|]; [|reflexivity]. cbn [render_trailing] in HTR.
     rewrite <- app_assoc in HTR. apply Vspaces in HTR. cbn [app] in HTR.
     apply (valid_utf8_tail_ascii 58) in HTR; [|reflexivity].
-    assert (Hae : ahead (a_eol a)).
-    { destruct (a_eol a) as [|c e]; [exact I|]. cbn [forallb] in Heol. apply Bool.andb_true_iff in Heol.
-      destruct Heol as [Hcc _]. unfold is_crlf in Hcc. cbn. lia. }
+    assert (Hae : ahead (a_eol a)) by (apply ahead_crlf; exact Heol).
     destruct (V1 _ _ HTR Hae) as [Ht _]. exact Ht. }
   unfold ast_utf8. rewrite HT, HS, HM, HTr. reflexivity.
 Qed.
